@@ -18,8 +18,8 @@ RULE = ('1-3 transforms (Transform2D / Transform3D, constructed with explicit or
         'eighth on either side, also as constructor arguments); 40 % of the later transforms are '
         'constructed from the very argument objects of an earlier one; object identity is '
         'observed with `is` only: constructor-stored vectors must be new objects (not the '
-        'argument, not shared between instances or with the defaults), an assigned vector must '
-        'be read back as the object it is; each callback records listener, event, argument and whether the argument '
+        'argument, not shared between instances or with the defaults); whether a setter keeps '
+        'the assigned object or stores an equal new vector is left open; each callback records listener, event, argument and whether the argument '
         'equals (value and type) what a read of the property returns both from inside the callback '
         'and right after the assignment; '
         'non-trivial = at least three assignments with at least two callbacks')
@@ -208,8 +208,6 @@ def run(case):
                 finally:
                     del current[:]
                 back = getattr(ts[t], PROPS[p])
-                if d or p != 1:
-                    ident = back is assigned
                 for (lid, j, args, kwargs, inside) in calls:
                     if len(args) == 1 and not kwargs:
                         a = args[0]
